@@ -132,12 +132,14 @@ CLAIMED = {
                      "link is its own obligation). Longer w, >2 cuts (3 thorough) other than per-character, real file objects, the Cython tokenizer are outside.",
                 technique=_E1 + "; chunk cut positions are concrete slice parameters, text and options are solver variables"),
     "C11": dict(engine="chx", category="model_checking",
-                text="For 13 lump families (RLE visibility, find_or_insert/extend, planes, vertexes, primitives, texture names, texinfo/texdata, overlays, "
-                     "brushes+sides, leafs, nodes, cubemaps, detail props, static props V4-V13/lightmap/Mesa) a value with unbounded symbolic integer fields, "
+                text="For 17 lump families (RLE visibility, find_or_insert/extend, planes, vertexes, primitives, texture names, texinfo/texdata, overlays, "
+                     "brushes+sides, leafs, nodes, cubemaps, detail props, static props V4-V13/lightmap/Mesa, faces/HDR faces/original faces with "
+                     "edges/surfedges/FACEIDS, water-leaf info, brush models with PHYSCOLLIDE, the entity lump with both output separators) a value with unbounded symbolic integer fields, "
                      "full symbolic flag words, names and aliasing choices is assigned, rebuilt by the real BSP.save() loop and re-read by the real readers: "
                      "exact equality or an explicit error (silent truncation is the violation). One open known finding (V4-V9 prop flags).",
-                note="Trusted: CrossHair, z3, ModelStruct/ModelBytesIO (vf/stubs/binmodel.py), a Flag-lookup proxy. Faces/edges, bmodels, water-leaf info, the "
-                     "entity lump, pakfile, LZMA are NOT covered; floats concrete; lists <= 2-3; texture names <= 2 chars over 4 letters (enumeration).",
+                note="Trusted: CrossHair, z3, ModelStruct/ModelBytesIO (vf/stubs/binmodel.py), a Flag-lookup proxy. Pakfile, LZMA, displacement info, lighting and "
+                     "leaf/node face references are not covered; floats concrete; lists <= 2-3; texture names <= 2 chars over 4 letters and entity keys by "
+                     "index (enumeration); entity lump: one symbolic text slot of length <= 1 (2 thorough) at a time.",
                 technique=_E1),
     "C19": dict(engine="chx", category="model_checking",
                 text="Three concrete file sets (mixed case/nesting, prefix names, case-only duplicates) built natively as Virtual, Zip, VPK and Raw; the query "
